@@ -32,7 +32,34 @@
 //     ↦ `p.metadata.values ← Metadata.unmarshalValues lower d` (parameter `lower` = strings.ToLower; the loop stays hand-written);
 //   - a parameter `ctx *protocol.Context` is read only as `ctx.Codec` (parameter `codec : UInt8` in its place) or passed on;
 //   - `map[string]string` is the association list of the Metadata model; the string type protocol.PacketType is the generated
-//     enum of its declared constants plus `zero` for "".
+//     enum of its declared constants plus `zero` for "" (two values of it are compared with the enum's decidable equality).
+//
+// Protocol-level encoders (protocolV1/protocolV2.Pack, the two headerFromMetadata). Further TRUSTED MAPPINGS, again each in exactly the
+// shape named:
+//   - a parameter `opts ...protocol.PackOption` is ONE parameter `thr : Int`, and `o := protocol.NewPackOptions(opts...)` followed by
+//     reads of `o.MinGzipSize` (no other use of o or opts) reads thr — after checking in go/protocol.go that PackOptions has the single
+//     field `MinGzipSize int`, PackOption is `func(*PackOptions)`, NewPackOptions is `o := &PackOptions{}; for … { opt(o) }; return o`
+//     (so it starts from MinGzipSize = 0) and GzipSize(n) is `o.MinGzipSize = n` (packOptionsCollapse): whatever options are passed,
+//     Pack sees their final MinGzipSize only. A length (Nat) compared with thr is lifted to Int exactly;
+//   - a parameter that is a pointer to a modelled struct (`packet *protocol.Packet`, `md *protocol.Metadata`; at most one per struct
+//     type, so that two cannot alias) is a variable of the struct: by value if the body only reads it, threaded like a written receiver
+//     and returned as the LAST component of the result if the body writes it (`Res (Bytes × GPacket)`). On a returned error the
+//     written packet is dropped with the other results (error-as-`Res.err` mode), as the model does;
+//   - `if x, err = gzip.Compress(b); err != nil { return nil, err }` (err a local error variable, unnamed results, the error last;
+//     the repository's own gzip package) ↦ bind on `gz.compress b` of the oracle: its error and its panic are the function's;
+//   - `h := F(args)` for a translated package-level function F of this package whose result is a pooled header
+//     (`h := pool.Get(); …; return h`, no deferred Put of it in F): h is a pooled value variable as after `pool.Get()`, the deferred Put
+//     in the caller is skipped as before; a pointer argument (`packet.Metadata`) of a parameter F only reads is passed by value;
+//   - `a, e := x.M()` IMMEDIATELY followed by `if e != nil { return nil, …, e }` (unnamed results, e not used again) propagates the
+//     callee's `Res.err` like the named-result idiom;
+//   - `md := packet.MarshalMetadata(n)` — after checking that go/packet.go defines it as `return p.Metadata.MarshalValues(max)` on a
+//     value receiver — ↦ `Metadata.marshalMap packet.metadata.values (Int.ofNat n)` of the model (the loop stays hand-written);
+//   - `copy(d, s)` / `copy(d[lo:], s)` into a local []byte ↦ `Bytes.copyAt d lo s` (the slice expression panics when lo > len(d);
+//     copy never panics and copies min(len(d)-lo, len(s)) bytes); binary.BigEndian.PutUint64 ↦ `Bytes.putBE64`;
+//   - a statement that is nothing but a call into package verifhook with literal arguments is instrumentation (empty without the
+//     build tag) and is skipped;
+//   - block scoping: where the continuation of an `if` is inlined behind a branch, what the branch declared goes out of scope at its end
+//     (`var err error` in the branch, `hd, err := …` later); re-declaring a variable that is still in scope stays outside the subset.
 package main
 
 import (
@@ -257,7 +284,7 @@ func errMessage(pk *pkgInfo, e ast.Expr) (string, bool) {
 type fres struct{ name, ty string } // ty "Err" for error
 
 type tparam struct {
-	kind string // "val" | "ctx" | "ring"
+	kind string // "val" | "ctx" | "ring" | "ptr" (pointer to a modelled struct, only read: passed by value) | "ptrw" (read and written) | "opts"
 	ty   string
 	kept bool // false: the callee never reads it, it is not a parameter of the Lean definition
 }
@@ -275,6 +302,8 @@ type translated struct {
 	errVal  bool
 	rings   int
 	fresh   bool // the single result is a pointer returned as `&T{…}` on every path: never nil, never shared
+	pooled  bool // … or, on some path, a header taken from the pool in this very function (`h := pool.Get(); …; return h`)
+	ptrW    int  // pointer parameters the function writes: last components of the result
 }
 
 var envOrder = []string{"gz", "lower"}
@@ -306,6 +335,13 @@ type ftr struct {
 	ptrVars map[string]string // named results of pointer type -> Lean struct (the variable has type "Ptr:T" while nil, T once assigned &T{…})
 	joinDep int               // > 0 inside the branches of an `if` whose continuation is joined (not inlined)
 	file    *ast.File
+	body    *ast.BlockStmt
+	ptrW    []string                    // pointer parameters (to modelled structs) that the body writes, in declaration order
+	opts    string                      // the variadic parameter `opts ...protocol.PackOption` ("" if none)
+	putDef  map[string]bool             // pooled variables with a deferred Put
+	retPool bool                        // some return hands out a pooled header
+	model   bool                        // the body calls a function of the hand-written model other than the oracles
+	scopes  map[*ast.EmptyStmt][]string // end-of-block markers: the variables that were in scope when the block was entered
 }
 
 func isCtxType(e ast.Expr) bool {
@@ -378,6 +414,9 @@ func (f *ftr) declareFields(goPath, leanPath, ty string) {
 		for _, fl := range fs {
 			if !fl.ptr { // a pointer field is never read as a value (that would be an alias), only through
 				f.ren[goPath+"."+fl.goName] = [2]string{leanPath + "." + fl.lean, fl.ty}
+				if fl.ty == "Bytes" {
+					f.ren["len("+goPath+"."+fl.goName+")"] = [2]string{leanPath + "." + fl.lean + ".length", "Nat"}
+				}
 			}
 			if isStructTy(fl.ty) {
 				f.declareFields(goPath+"."+fl.goName, leanPath+"."+fl.lean, fl.ty)
@@ -389,7 +428,7 @@ func (f *ftr) declareFields(goPath, leanPath, ty string) {
 // removes the ren entries of a variable's fields (a pointer variable that is nil again / of unknown state)
 func (f *ftr) undeclareFields(name string) {
 	for k := range f.ren {
-		if strings.HasPrefix(k, name+".") {
+		if strings.HasPrefix(k, name+".") || strings.HasPrefix(k, "len("+name+".") {
 			delete(f.ren, k)
 		}
 	}
@@ -883,9 +922,32 @@ func isNeqNil(e ast.Expr, name string) bool {
 	return ok && be.Op == token.NEQ && exprText(be.X) == name && exprText(be.Y) == "nil"
 }
 
-// `if e != nil { err = e; return }` with err the named error result
+// `return nil, …, e` in a function with unnamed results, the error last, e a local error variable (error-as-Res.err mode)
+func (f *ftr) isNilErrReturn(rs *ast.ReturnStmt, e string) bool {
+	n := len(f.results)
+	if f.named || f.errVal || n == 0 || len(rs.Results) != n || f.results[n-1].ty != "Err" || exprText(rs.Results[n-1]) != e {
+		return false
+	}
+	for i, r := range rs.Results[:n-1] {
+		if exprText(r) != "nil" || f.results[i].ty == "Err" {
+			return false
+		}
+		if t := f.results[i].ty; t != "Bytes" && !strings.HasPrefix(t, "Fresh:") {
+			return false
+		}
+	}
+	_, shadow := f.vars["nil"]
+	return !shadow
+}
+
+// `if e != nil { err = e; return }` with err the named error result, or `if e != nil { return nil, …, e }` (unnamed results)
 func (f *ftr) isErrReturnIdiom(s ast.Stmt, e string) bool {
 	is, ok := s.(*ast.IfStmt)
+	if ok && is.Init == nil && is.Else == nil && len(is.Body.List) == 1 && isNeqNil(is.Cond, e) {
+		if rs, isRet := is.Body.List[0].(*ast.ReturnStmt); isRet && f.isNilErrReturn(rs, e) {
+			return true
+		}
+	}
 	if !ok || is.Init != nil || is.Else != nil || len(is.Body.List) != 2 || !isNeqNil(is.Cond, e) {
 		return false
 	}
@@ -983,7 +1045,11 @@ func (f *ftr) isPoolPutDefer(d *ast.DeferStmt) bool {
 	}
 	pid, ok1 := se.X.(*ast.Ident)
 	vid, ok2 := ce.Args[0].(*ast.Ident)
-	return ok1 && ok2 && f.isHeaderPool(pid.Name) && f.pooled[vid.Name]
+	if ok1 && ok2 && f.isHeaderPool(pid.Name) && f.pooled[vid.Name] {
+		f.putDef[vid.Name] = true
+		return true
+	}
+	return false
 }
 
 // the file of the function imports the repository's own gzip package under the name `gzip`
@@ -1014,6 +1080,136 @@ func unmarshalMetadataIsForwarder() bool {
 	return exprText(rs.Results[0]) == want && findFunc(pkgs["protocol"], "Metadata", "UnmarshalValues") != nil
 }
 
+// go/packet.go: `func (p Packet) MarshalMetadata(max int) []byte { return p.Metadata.MarshalValues(max) }`
+func marshalMetadataIsForwarder() bool {
+	fd := findFunc(pkgs["protocol"], "Packet", "MarshalMetadata")
+	if fd == nil || fd.Body == nil || len(fd.Body.List) != 1 || len(fd.Recv.List[0].Names) != 1 || len(fd.Type.Params.List) != 1 || len(fd.Type.Params.List[0].Names) != 1 {
+		return false
+	}
+	if _, ptr := fd.Recv.List[0].Type.(*ast.StarExpr); ptr || exprText(fd.Type.Params.List[0].Type) != "int" {
+		return false
+	}
+	rs, ok := fd.Body.List[0].(*ast.ReturnStmt)
+	if !ok || len(rs.Results) != 1 {
+		return false
+	}
+	want := fd.Recv.List[0].Names[0].Name + ".Metadata.MarshalValues(" + fd.Type.Params.List[0].Names[0].Name + ")"
+	return exprText(rs.Results[0]) == want && findFunc(pkgs["protocol"], "Metadata", "MarshalValues") != nil
+}
+
+// go/protocol.go: the pack options are ONE number. `type PackOptions struct { MinGzipSize int }` (no other field),
+// `type PackOption func(*PackOptions)`, NewPackOptions starts from the zero struct and applies the options in order, GzipSize(n) sets
+// the field to n: whatever options are passed, Pack sees them only as the final value of MinGzipSize (0 without options).
+func packOptionsCollapse() bool {
+	pk, ok := pkgs["protocol"]
+	if !ok {
+		return false
+	}
+	fields := 0
+	for _, f := range pk.files {
+		ast.Inspect(f, func(n ast.Node) bool {
+			ts, ok := n.(*ast.TypeSpec)
+			if !ok {
+				return true
+			}
+			switch ts.Name.Name {
+			case "PackOptions":
+				st, ok := ts.Type.(*ast.StructType)
+				if !ok {
+					fields = -100
+					return true
+				}
+				for _, fl := range st.Fields.List {
+					if len(fl.Names) == 1 && fl.Names[0].Name == "MinGzipSize" && exprText(fl.Type) == "int" {
+						fields++
+					} else {
+						fields = -100
+					}
+				}
+			case "PackOption":
+				ft, ok := ts.Type.(*ast.FuncType)
+				if !ok || ft.Results != nil || len(ft.Params.List) != 1 || len(ft.Params.List[0].Names) > 1 || exprText(ft.Params.List[0].Type) != "*PackOptions" {
+					fields = -100
+				} else {
+					fields += 10
+				}
+			}
+			return true
+		})
+	}
+	if fields != 11 {
+		return false
+	}
+	nw := findFunc(pk, "", "NewPackOptions")
+	gs := findFunc(pk, "", "GzipSize")
+	if nw == nil || gs == nil || len(nw.Type.Params.List) != 1 || len(nw.Type.Params.List[0].Names) != 1 || nw.Type.Params.List[0].Names[0].Name != "opts" {
+		return false
+	}
+	if el, ok := nw.Type.Params.List[0].Type.(*ast.Ellipsis); !ok || exprText(el.Elt) != "PackOption" {
+		return false
+	}
+	a, b := stmtTexts(nw), stmtTexts(gs)
+	return len(a) == 3 && a[0] == "o := &PackOptions{}" && a[1] == "for _, opt := range opts { opt(o) }" && a[2] == "return o" &&
+		len(gs.Type.Params.List) == 1 && len(gs.Type.Params.List[0].Names) == 1 && gs.Type.Params.List[0].Names[0].Name == "n" &&
+		exprText(gs.Type.Params.List[0].Type) == "int" &&
+		len(b) == 1 && b[0] == "return func(o *PackOptions) { o.MinGzipSize = n }"
+}
+
+// structPath: `v`, `v.F`, `v.F.G` … from a struct variable through struct-typed fields (pointer fields included: the struct value
+// stands for the never-nil, unshared pointer); returns the Lean term and its struct type
+func (f *ftr) structPath(e ast.Expr) (string, string, bool) {
+	switch x := e.(type) {
+	case *ast.Ident:
+		if ty := f.vars[x.Name]; isStructTy(ty) {
+			return lname(x.Name), ty, true
+		}
+	case *ast.SelectorExpr:
+		base, ty, ok := f.structPath(x.X)
+		if !ok {
+			return "", "", false
+		}
+		for _, fl := range gstructs[f.structKeyOfLean(ty)] {
+			if fl.goName == x.Sel.Name && isStructTy(fl.ty) {
+				return base + "." + fl.lean, fl.ty, true
+			}
+		}
+	}
+	return "", "", false
+}
+
+// scopeMark returns a marker statement to be put after the statements of a block whose continuation is inlined behind it: what the
+// block declared goes out of scope there (Go's block scoping; without it `var err error` in a branch and a later `hd, err := …`
+// would look like a re-definition)
+func (f *ftr) scopeMark() ast.Stmt {
+	m := &ast.EmptyStmt{}
+	if f.scopes == nil {
+		f.scopes = map[*ast.EmptyStmt][]string{}
+	}
+	f.scopes[m] = append([]string{}, f.order...)
+	return m
+}
+
+func (f *ftr) endScope(m *ast.EmptyStmt) {
+	outer, ok := f.scopes[m]
+	if !ok {
+		return
+	}
+	keep := map[string]bool{}
+	for _, v := range outer {
+		keep[v] = true
+	}
+	for v := range f.vars {
+		if !keep[v] {
+			delete(f.vars, v)
+			delete(f.ren, v)
+			delete(f.ren, "len("+v+")")
+			f.undeclareFields(v)
+			delete(f.pooled, v)
+		}
+	}
+	f.order = append([]string{}, outer...)
+}
+
 // ifInit: `if lhs…, err = CALL; err != nil { return }` for the external functions of the model (see the header comment)
 func (f *ftr) ifInit(x *ast.IfStmt, rest []ast.Stmt, tail func() string) string {
 	as, ok := x.Init.(*ast.AssignStmt)
@@ -1021,12 +1217,21 @@ func (f *ftr) ifInit(x *ast.IfStmt, rest []ast.Stmt, tail func() string) string 
 		return f.bad("if with init")
 	}
 	rs, ok := x.Body.List[0].(*ast.ReturnStmt)
-	if !ok || len(rs.Results) != 0 {
-		return f.bad("if with init: the body is not a bare return")
+	if !ok {
+		return f.bad("if with init: the body is not a return")
 	}
 	eid, ok := as.Lhs[len(as.Lhs)-1].(*ast.Ident)
-	if !ok || !f.isErrResult(eid.Name) || !isNeqNil(x.Cond, eid.Name) {
+	if !ok || !isNeqNil(x.Cond, eid.Name) {
 		return f.bad("if with init: not `…, err = call; err != nil`")
+	}
+	// the body hands the error on: a bare return with err the named error result, or `return nil, …, err` with err a local error
+	// variable in a function with unnamed results (the error last)
+	if len(rs.Results) == 0 {
+		if !f.isErrResult(eid.Name) {
+			return f.bad("if with init: not `…, err = call; err != nil`")
+		}
+	} else if f.vars[eid.Name] != "Err" || !f.isNilErrReturn(rs, eid.Name) {
+		return f.bad("if with init: the body is not `return nil, …, %s`", eid.Name)
 	}
 	ce, ok := as.Rhs[0].(*ast.CallExpr)
 	if !ok {
@@ -1061,6 +1266,33 @@ func (f *ftr) ifInit(x *ast.IfStmt, rest []ast.Stmt, tail func() string) string 
 		default:
 			return f.bad("gzip.Decompress into %s", exprText(lhs[0]))
 		}
+	case exprText(ce.Fun) == "gzip.Compress" && len(ce.Args) == 1 && len(lhs) == 1 && f.importsRepoGzip() &&
+		findFunc(pkgs["gzip"], "", "Compress") != nil:
+		// x, err = gzip.Compress(b): the oracle's compressor; its error (and its panic) is the function's
+		if _, shadow := f.vars["gzip"]; shadow {
+			return f.bad("gzip is a variable here")
+		}
+		pre, arg := f.exprAs(ce.Args[0], "Bytes")
+		f.dropHoisted()
+		f.needs["gz"] = true
+		t := f.tmp()
+		out = pre + fmt.Sprintf("Res.bind (gz.compress %s) fun %s =>\n", arg, t)
+		switch l := lhs[0].(type) {
+		case *ast.SelectorExpr:
+			out += f.fieldWrite(l, func(ty string) (string, string) {
+				if ty != "Bytes" {
+					return "", f.bad("gzip.Compress into %s", exprText(l))
+				}
+				return "", t
+			})
+		case *ast.Ident:
+			if f.vars[l.Name] != "Bytes" {
+				return f.bad("gzip.Compress into %s", l.Name)
+			}
+			out += fmt.Sprintf("let %s : Bytes := %s\n", lname(l.Name), t)
+		default:
+			return f.bad("gzip.Compress into %s", exprText(lhs[0]))
+		}
 	case len(lhs) == 0 && len(ce.Args) == 1:
 		se, isSel := ce.Fun.(*ast.SelectorExpr)
 		if !isSel || se.Sel.Name != "UnmarshalMetadata" {
@@ -1089,6 +1321,127 @@ func (f *ftr) ifInit(x *ast.IfStmt, rest []ast.Stmt, tail func() string) string 
 	return out + f.block(rest, tail)
 }
 
+// defineSpecial: the three `v := CALL` shapes of the protocol-level encoders (trusted mappings, see the header comment)
+func (f *ftr) defineSpecial(name string, rhs ast.Expr) (string, bool) {
+	ce, ok := rhs.(*ast.CallExpr)
+	if !ok {
+		return "", false
+	}
+	// o := protocol.NewPackOptions(opts...): from here on `o.MinGzipSize` is the parameter thr; o is not a variable (any other use fails)
+	if exprText(ce.Fun) == "protocol.NewPackOptions" {
+		if _, shadow := f.vars["protocol"]; shadow || f.pkg == "protocol" {
+			return f.bad("protocol.NewPackOptions here"), true
+		}
+		aid, isId := (ast.Expr)(nil), false
+		if len(ce.Args) == 1 {
+			aid, isId = ce.Args[0], true
+		}
+		if !isId || !ce.Ellipsis.IsValid() || f.opts == "" || exprText(aid) != f.opts || !packOptionsCollapse() || f.joinDep > 0 {
+			return f.bad("NewPackOptions not as `o := protocol.NewPackOptions(opts...)` with opts the variadic parameter"), true
+		}
+		if _, done := f.ren[name+".MinGzipSize"]; done {
+			return f.bad("second NewPackOptions"), true
+		}
+		// every occurrence of o is a read of o.MinGzipSize, opts occurs only here
+		nO, nSel, nOpts, written := 0, 0, 0, false
+		ast.Inspect(f.body, func(n ast.Node) bool {
+			switch y := n.(type) {
+			case *ast.Ident:
+				if y.Name == name {
+					nO++
+				}
+				if y.Name == f.opts {
+					nOpts++
+				}
+			case *ast.SelectorExpr:
+				if exprText(y) == name+".MinGzipSize" {
+					nSel++
+				}
+			case *ast.AssignStmt:
+				for _, l := range y.Lhs {
+					if strings.HasPrefix(exprText(l), name+".") {
+						written = true
+					}
+				}
+			case *ast.IncDecStmt:
+				if strings.HasPrefix(exprText(y.X), name+".") {
+					written = true
+				}
+			case *ast.UnaryExpr:
+				if y.Op == token.AND && strings.HasPrefix(exprText(y.X), name+".") {
+					written = true
+				}
+			}
+			return true
+		})
+		if nO != nSel+1 || nOpts != 1 || written {
+			return f.bad("the pack options %s are used otherwise than by reading %s.MinGzipSize", name, name), true
+		}
+		f.ren[name+".MinGzipSize"] = [2]string{"thr", "Int"}
+		return "", true
+	}
+	// md := packet.MarshalMetadata(max): the model's Metadata.marshalMap on the packet's values (the loop stays hand-written)
+	if se, isSel := ce.Fun.(*ast.SelectorExpr); isSel && se.Sel.Name == "MarshalMetadata" {
+		id, isId := se.X.(*ast.Ident)
+		if !isId || f.vars[id.Name] != "GPacket" || len(ce.Args) != 1 || !marshalMetadataIsForwarder() {
+			return f.bad("MarshalMetadata on %s", exprText(se.X)), true
+		}
+		var vty string
+		for _, fl := range gstructs["protocol.Metadata"] {
+			if fl.goName == "Values" {
+				vty = fl.ty
+			}
+		}
+		if vty != pairsTy {
+			return f.bad("Metadata.Values has type %s", vty), true
+		}
+		pre, n := f.nat(ce.Args[0])
+		f.dropHoisted()
+		f.model = true
+		f.declare(name, "Bytes")
+		return pre + fmt.Sprintf("let %s : Bytes := Metadata.marshalMap %s.metadata.values (Int.ofNat %s)\n", lname(name), lname(id.Name), n), true
+	}
+	// h := headerFromMetadata(packet.Metadata): a translated package-level function that hands out a pooled header
+	if fid, isId := ce.Fun.(*ast.Ident); isId {
+		tr, found := fnTable[f.pkg+"."+fid.Name]
+		if _, shadow := f.vars[fid.Name]; !found || shadow || findFunc(f.pk, "", fid.Name) == nil {
+			return "", false
+		}
+		if tr.recvTy != "" || !tr.pooled || tr.hasErr || len(tr.vals) != 1 || tr.rings != 0 || tr.ptrW != 0 || len(ce.Args) != len(tr.params) || ce.Ellipsis.IsValid() {
+			return f.bad("call of %s", fid.Name), true
+		}
+		app := tr.lean
+		for _, n := range tr.needs {
+			f.needs[n] = true
+			app += " " + n
+		}
+		pre := ""
+		for i, p := range tr.params {
+			switch {
+			case p.kind == "ptr": // the callee only reads the struct: by value
+				s, ty, ok := f.structPath(ce.Args[i])
+				if !ok || ty != p.ty {
+					return f.bad("argument %s of %s", exprText(ce.Args[i]), fid.Name), true
+				}
+				if p.kept {
+					app += " " + s
+				}
+			case p.kind == "val" && p.kept:
+				p1, s := f.exprAs(ce.Args[i], p.ty)
+				pre += p1
+				app += " " + s
+			default:
+				return f.bad("argument %s of %s", exprText(ce.Args[i]), fid.Name), true
+			}
+		}
+		f.dropHoisted()
+		f.declare(name, tr.vals[0])
+		f.pooled[name] = true
+		return pre + fmt.Sprintf("Res.bind (%s) fun %s =>\n", app, lname(name)), true
+	}
+	return "", false
+}
+
 func (f *ftr) dropHoisted() {
 	for _, k := range f.hoisted {
 		delete(f.ren, k)
@@ -1114,6 +1467,24 @@ func (f *ftr) expr(e ast.Expr, want string) (string, string, string) {
 	case *ast.SelectorExpr:
 		if s, ty, ok := f.enumConst(x); ok {
 			return "", s, ty
+		}
+	case *ast.BinaryExpr:
+		// md.Type == protocol.RequestPacket: equality of two values of a generated enum (decidable equality of the inductive type)
+		if x.Op == token.EQL || x.Op == token.NEQ {
+			_, _, lc := f.enumConst(x.X)
+			_, _, rc := f.enumConst(x.Y)
+			if lc || rc {
+				p1, a, ta := f.expr(x.X, "")
+				p2, b, tb := f.expr(x.Y, "")
+				if ta != tb || !isEnumTy(ta) {
+					return p1 + p2, f.bad("comparison %s", exprText(e)), "Bool"
+				}
+				op := "=="
+				if x.Op == token.NEQ {
+					op = "!="
+				}
+				return p1 + p2, "(" + a + " " + op + " " + b + ")", "Bool"
+			}
 		}
 	case *ast.CompositeLit:
 		if f.leanTypeOf(x.Type) == "Bytes" {
@@ -1244,6 +1615,14 @@ func (f *ftr) assigned(n ast.Node) []string {
 					set[exprText(se.X)] = true
 				}
 			}
+			if exprText(x.Fun) == "copy" && len(x.Args) == 2 { // copy(d, …) / copy(d[lo:], …) writes d
+				switch d := x.Args[0].(type) {
+				case *ast.SliceExpr:
+					set[exprText(d.X)] = true
+				default:
+					set[exprText(d)] = true
+				}
+			}
 			if ring, m, _, ok := f.ringCall(x); ok && m != "Length" && !strings.HasPrefix(m, "Peek") {
 				set[ring] = true // Retrieve (and any method outside the subset: the statement translator rejects it)
 			}
@@ -1284,6 +1663,7 @@ func (f *ftr) block(stmts []ast.Stmt, tail func() string) string {
 	cont := func() string { f.dropHoisted(); return f.block(rest, tail) }
 	switch x := s.(type) {
 	case *ast.EmptyStmt:
+		f.endScope(x)
 		return cont()
 	case *ast.DeclStmt:
 		gd, ok := x.Decl.(*ast.GenDecl)
@@ -1298,6 +1678,9 @@ func (f *ftr) block(stmts []ast.Stmt, tail func() string) string {
 				return f.bad("var declaration %s", exprText(vs.Type))
 			}
 			for _, n := range vs.Names {
+				if _, dup := f.vars[n.Name]; dup {
+					return f.bad("re-declaration of %s (shadowing is outside the subset)", n.Name)
+				}
 				f.declare(n.Name, ty)
 				out += fmt.Sprintf("let %s : %s := %s\n", lname(n.Name), leanTyText(ty), zeroOf(ty))
 			}
@@ -1373,6 +1756,12 @@ func (f *ftr) block(stmts []ast.Stmt, tail func() string) string {
 			if x.Tok == token.DEFINE {
 				if _, dup := f.vars[l.Name]; dup {
 					return f.bad("re-definition of %s (shadowing is outside the subset)", l.Name)
+				}
+				if out, handled := f.defineSpecial(l.Name, x.Rhs[0]); handled {
+					if f.fail != "" {
+						return out
+					}
+					return out + cont()
 				}
 				if f.isPoolGet(x.Rhs[0]) { // header := defaultHeaderPool.Get(): a fresh zero header (trusted mapping, see the header comment)
 					ty := leanStruct[f.pkg+".Header"]
@@ -1458,6 +1847,42 @@ func (f *ftr) block(stmts []ast.Stmt, tail func() string) string {
 				d := lname(exprText(se.X))
 				return p1 + p2 + p3 + fmt.Sprintf("Res.bind (Bytes.putBE%s %s %s %s %s) fun %s =>\n", n, d, lo, hi, v, d) + cont()
 			}
+		}
+		if ce, ok := x.X.(*ast.CallExpr); ok && isHookStmt(x) {
+			// verifhook.Point("…"): instrumentation (empty without the build tag); only literal arguments, so that nothing is evaluated
+			_, shadow := f.vars["verifhook"]
+			lits := true
+			for _, a := range ce.Args {
+				if _, isLit := a.(*ast.BasicLit); !isLit {
+					lits = false
+				}
+			}
+			if !shadow && lits {
+				return cont()
+			}
+			return f.bad("instrumentation call %s", exprText(x.X))
+		}
+		if ce, ok := x.X.(*ast.CallExpr); ok && exprText(ce.Fun) == "copy" && len(ce.Args) == 2 {
+			// copy(d, src) / copy(d[lo:], src) into a local buffer: Bytes.copyAt (the slice expression may panic, copy never does)
+			if _, shadow := f.vars["copy"]; shadow {
+				return f.bad("copy is a variable here")
+			}
+			var dst ast.Expr = ce.Args[0]
+			p1, lo := "", "(0 : Nat)"
+			if se, isSl := dst.(*ast.SliceExpr); isSl {
+				if se.High != nil || se.Max != nil || se.Low == nil {
+					return f.bad("copy into %s", exprText(dst))
+				}
+				dst = se.X
+				p1, lo = f.nat(se.Low)
+			}
+			did, isId := dst.(*ast.Ident)
+			if !isId || f.vars[did.Name] != "Bytes" {
+				return f.bad("copy into %s", exprText(ce.Args[0]))
+			}
+			p2, src := f.exprAs(ce.Args[1], "Bytes")
+			d := lname(did.Name)
+			return p1 + p2 + fmt.Sprintf("Res.bind (Bytes.copyAt %s %s %s) fun %s =>\n", d, lo, src, d) + cont()
 		}
 		if ring, m, args, ok := f.ringCall(x.X); ok && m == "Retrieve" && len(args) == 1 {
 			pre, n := f.nat(args[0])
@@ -1554,10 +1979,10 @@ func (f *ftr) block(stmts []ast.Stmt, tail func() string) string {
 		if hasRet {
 			// the continuation is inlined into both branches (a branch that returns ignores it)
 			sn := f.snap()
-			a := f.block(append(append([]ast.Stmt{}, x.Body.List...), rest...), tail)
+			a := f.block(append(append(append([]ast.Stmt{}, x.Body.List...), f.scopeMark()), rest...), tail)
 			f.restore(sn)
 			sn = f.snap()
-			b := f.block(append(append([]ast.Stmt{}, elseList...), rest...), tail)
+			b := f.block(append(append(append([]ast.Stmt{}, elseList...), f.scopeMark()), rest...), tail)
 			f.restore(sn)
 			return pre + fmt.Sprintf("if %s then (\n%s) else (\n%s)", cond, a, b)
 		}
@@ -1661,6 +2086,15 @@ func (f *ftr) ret(results []ast.Expr) string {
 			continue
 		}
 		if strings.HasPrefix(r.ty, "Fresh:") { // unnamed pointer result: only `return &T{…}`
+			if id, isId := e.(*ast.Ident); isId && f.pooled[id.Name] && f.vars[id.Name] == strings.TrimPrefix(r.ty, "Fresh:") {
+				// `h := pool.Get(); …; return h`: the caller gets the header (and gives it back); it must not also go back here
+				if f.putDef[id.Name] {
+					return f.bad("pooled header %s is returned and put back", id.Name)
+				}
+				f.retPool = true
+				vals = append(vals, lname(id.Name))
+				continue
+			}
 			cl, isLit := addrLit(e)
 			if !isLit {
 				return f.bad("pointer result %s is not a fresh `&T{…}`", exprText(e))
@@ -1695,6 +2129,9 @@ func (f *ftr) ret(results []ast.Expr) string {
 	if errStatic != "" {
 		return fmt.Sprintf(".err %q", errStatic)
 	}
+	for _, pw := range f.ptrW { // what the function wrote through its pointer parameters
+		vals = append(vals, lname(pw))
+	}
 	okv := ".ok ()"
 	if len(vals) == 1 {
 		okv = ".ok " + vals[0]
@@ -1717,7 +2154,7 @@ func translateFunc(sp fspec) (string, string) {
 		return "", "function not found"
 	}
 	f := &ftr{tx: tx{pk: pk, ren: map[string][2]string{}, intTy: "Nat"}, pkg: sp.pkg, vars: map[string]string{},
-		needs: map[string]bool{}, pooled: map[string]bool{}, ptrVars: map[string]string{}}
+		needs: map[string]bool{}, pooled: map[string]bool{}, ptrVars: map[string]string{}, putDef: map[string]bool{}, body: fd.Body}
 	for _, fl := range pk.files {
 		if fl.Pos() <= fd.Pos() && fd.End() <= fl.End() {
 			f.file = fl
@@ -1759,7 +2196,50 @@ func translateFunc(sp fspec) (string, string) {
 	}
 	slots := []pslot{}
 	tparams := []tparam{}
+	ptrParams := map[string]string{} // struct type -> the pointer parameter of that type
 	for _, p := range fd.Type.Params.List {
+		if el, isEll := p.Type.(*ast.Ellipsis); isEll {
+			// opts ...protocol.PackOption: ONE number, the final MinGzipSize (see packOptionsCollapse)
+			for _, n := range p.Names {
+				if !used[n.Name] {
+					tparams = append(tparams, tparam{"opts", "Int", false})
+					continue
+				}
+				if exprText(el.Elt) != "protocol.PackOption" || sp.pkg == "protocol" || !packOptionsCollapse() || used["thr"] || f.opts != "" {
+					return "", "variadic parameter " + exprText(el.Elt)
+				}
+				f.opts = n.Name
+				slots = append(slots, pslot{" (thr : Int)", false})
+				tparams = append(tparams, tparam{"opts", "Int", true})
+			}
+			continue
+		}
+		if st, isStar := p.Type.(*ast.StarExpr); isStar && !isCtxType(p.Type) && !isRingType(p.Type) {
+			// pointer to a modelled struct: a variable of the struct type; by value if the body only reads it, threaded into the
+			// result if it writes it. One such parameter per struct type (two could alias).
+			if t, pp := typeIn(f.pkg, st.X); t != "" && !pp && isStructTy(t) {
+				key := f.structKeyOfLean(t)
+				kp := strings.SplitN(key, ".", 2)
+				structOf(kp[0], kp[1])
+				if why, isBad := structBad[key]; isBad {
+					return "", "parameter struct " + key + " has a field outside the subset (" + why + ")"
+				}
+				for _, n := range p.Names {
+					if !used[n.Name] {
+						tparams = append(tparams, tparam{"ptr", t, false})
+						continue
+					}
+					if _, two := ptrParams[t]; two || t == leanStruct[f.recvKey] {
+						return "", "two pointers to " + key
+					}
+					ptrParams[t] = n.Name
+					f.declare(n.Name, t)
+					slots = append(slots, pslot{fmt.Sprintf(" (%s : %s)", lname(n.Name), t), false})
+					tparams = append(tparams, tparam{"ptr", t, true})
+				}
+				continue
+			}
+		}
 		ty := f.leanTypeOf(p.Type)
 		kind := "val"
 		if isRingType(p.Type) {
@@ -1839,6 +2319,18 @@ func translateFunc(sp fspec) (string, string) {
 			}
 		}
 	}
+	// … or one of its pointer parameters?
+	for _, v := range f.assigned(fd.Body) {
+		for i := range tparams {
+			if tparams[i].kind == "ptr" && tparams[i].kept && ptrParams[tparams[i].ty] == v {
+				tparams[i].kind = "ptrw"
+				f.ptrW = append(f.ptrW, v)
+			}
+		}
+	}
+	if len(f.ptrW) > 0 && (f.errVal || f.named) {
+		return "", "written pointer parameter in a function with named results or a ring"
+	}
 	body := pro + f.block(fd.Body.List, func() string {
 		if len(f.results) == 0 || f.named {
 			return f.ret(nil)
@@ -1870,6 +2362,9 @@ func translateFunc(sp fspec) (string, string) {
 				tys = append(tys, "Option String")
 			}
 		}
+	}
+	for _, pw := range f.ptrW {
+		tys = append(tys, f.vars[pw])
 	}
 	resTy := "Unit"
 	if len(tys) == 1 {
@@ -1910,7 +2405,10 @@ func translateFunc(sp fspec) (string, string) {
 		usesEnv[n] = true
 	}
 	fnTable[key] = translated{lean: name, recvTy: recvTy, resTy: resTy, recvPtr: f.recvPtr, recvW: f.recvW, params: tparams, needs: needs,
-		vals: vals, hasErr: hasErr, errVal: f.errVal, rings: len(f.rings), fresh: fresh}
+		vals: vals, hasErr: hasErr, errVal: f.errVal, rings: len(f.rings), fresh: fresh, pooled: f.retPool, ptrW: len(f.ptrW)}
+	if f.model {
+		usesEnv["model"] = true
+	}
 	if len(f.rings) > 0 {
 		usesRing = true
 	}
@@ -1940,6 +2438,7 @@ func funcSpecs() []fspec {
 		{"v2", "Header", "length"}, {"v2", "Header", "Pack"}, {"v2", "Header", "UnpackBytes"},
 		{"v1", "Header", "Unpack"}, {"v2", "Header", "Unpack"},
 		{"v1", "Header", "Metadata"}, {"v1", "protocolV1", "UnpackBytes"}, {"v2", "protocolV2", "UnpackBytes"},
+		{"v1", "", "headerFromMetadata"}, {"v2", "", "headerFromMetadata"}, {"v1", "protocolV1", "Pack"}, {"v2", "protocolV2", "Pack"},
 	}
 }
 
